@@ -2260,6 +2260,7 @@ func (r *Raft) pickServer() *Server {
 func (r *Raft) initiateLeadershipTransfer(id *ServerID, address *ServerAddress) LeadershipTransferFuture {
 	future := &leadershipTransferFuture{ID: id, Address: address}
 	future.init()
+	future.ShutdownCh = r.shutdownCh
 
 	if id != nil && *id == r.localID {
 		err := fmt.Errorf("cannot transfer leadership to itself")
